@@ -47,6 +47,9 @@ var (
 		"SUMI32": sumService[int32]{},
 		"SUMI64": sumService[int64]{},
 		"CRC32":  sumService[uint32]{},
+		// names are matched exactly as written: these two are registered, "sumu32" / "Crc32" / "SUMU32MX" are not
+		"SumU32Mx": sumService[uint32]{},
+		"sumu16lc": sumService[uint16]{},
 	}
 )
 
